@@ -8,9 +8,12 @@ def tv_job(job):
     builder = job.get('builder', 'python')
     if builder == 'python':
         ct = build_python(spec)
-    else:
+    elif builder == 'roundtrip':          # python classes -> to_yaml -> from_yaml
         from . import yamlio
-        ct = yamlio.build_yaml(spec, roundtrip=(builder == 'roundtrip'))
+        ct = yamlio.roundtrip_template(build_python(spec))
+    else:                                 # 'yaml' | 'yaml_roundtrip'
+        from . import yamlio
+        ct = yamlio.build_yaml(spec, roundtrip=(builder == 'yaml_roundtrip'))
     pre = job.get('pre')
     if pre:
         ct = pre(ct, spec) or ct
